@@ -69,6 +69,9 @@ def validate_evidence(path):
 def write_evidence(prop_id, tier, seed, coverage, assumptions, wall, violations):
     os.makedirs(os.path.join(VERIF, "evidence"), exist_ok=True)
     path = os.path.join(VERIF, "evidence", prop_id + ".json")
+    if os.environ.get("GV_NO_EVIDENCE"):      # mutation campaign: never touch committed evidence
+        path = os.path.join("/dev/shm" if os.path.isdir("/dev/shm") else "/tmp",
+                            "gv-evidence-%s-%d.json" % (prop_id, os.getpid()))
     ev = dict(
         property_id=prop_id,
         tier=tier,
@@ -85,6 +88,8 @@ def write_evidence(prop_id, tier, seed, coverage, assumptions, wall, violations)
         fh.write("\n")
     os.replace(tmp, path)
     ok, msg = validate_evidence(path)
+    if os.environ.get("GV_NO_EVIDENCE"):
+        os.unlink(path)
     if not ok:
         print("ENGINE-ERROR: evidence does not validate: %s" % msg)
         return False
